@@ -76,6 +76,10 @@ def session_keys(ctx, keys, size, seed=0, args=()):
                 pend = b""
             lb = r["bufs"][0]["lb"]
             chk = 1 if (first or r["done"]) and r["w_cnt"] in (1, 2) and "lines" in lb and not r["quit"] and r["opts"]["td"] == 0 else 0
+            # Term.tla draws lines of left-to-right base direction: once right-to-left letters are in the buffer (a session that typed
+            # ^F in insert mode has switched to the alternate keymap) the boundaries are not compared
+            if chk and any(0x590 <= c <= 0x8ff or 0xfb1d <= c <= 0xfdff or 0xfe70 <= c <= 0xfeff for l in lines_of(lb) for c in l):
+                chk = 0
             # two windows (vi_switch): the upper one has the rows [0, R/2), the lower one [R/2, R); each ends with its message row
             beg = R // 2 if r["w_cnt"] == 2 and r.get("w_cur") == 1 else 0
             out.append({"ev": "vi", "chk": chk, "beg": beg, "two": 1 if r["w_cnt"] == 2 else 0, "lines": lines_of(lb) if "lines" in lb else [], "top": r["top"], "left": r["left"],
